@@ -148,7 +148,7 @@ let coq inp obs =
     let mk (_, a, b, sg) = { vvoter = nat_of_int a; vblock = nat_of_int b; vsig = nat_of_int sg } in
     let v = List.map mk (List.filter (fun (ph, _, _, _) -> ph = 'p') l)
     and c = List.map mk (List.filter (fun (ph, _, _, _) -> ph = 'c') l) in
-    if not (tolerant ws v && tolerant ws c) then None else begin
+    if List.length ws > 12 || List.length l > 40 || not (tolerant ws v && tolerant ws c) then None else begin
       let last = List.nth (list_of obs) (List.length l - 1) in
       match String.split_on_char ':' last with
       | [_; g; f; e; cp; pg; _; _] when cp = "0" || cp = "1" ->
